@@ -491,6 +491,18 @@ func TestFaultScripts(t *testing.T) {
 	}
 	// clients that leave right after asking: no oracle on them, they only have to
 	// leave the server clean
+	// A UDP client cannot "disconnect"; it can only stop listening. Its socket stays bound until
+	// the end of the run: closing it would hand its port to a later client of this test, and the
+	// server's (correctly addressed) reply to the departed client would look like cross-talk.
+	var lmu sync.Mutex
+	var leavers []*net.UDPConn
+	defer func() {
+		lmu.Lock()
+		for _, c := range leavers {
+			_ = c.Close()
+		}
+		lmu.Unlock()
+	}()
 	udpLeave := func(name string) {
 		c, err := net.DialUDP("udp", nil, uaddr)
 		if err != nil {
@@ -500,7 +512,9 @@ func TestFaultScripts(t *testing.T) {
 		q.SetQuestion(name, dns.TypeA)
 		b, _ := q.Pack()
 		_, _ = c.Write(b)
-		_ = c.Close()
+		lmu.Lock()
+		leavers = append(leavers, c)
+		lmu.Unlock()
 	}
 	tcpLeave := func(name string) {
 		c, err := net.DialTimeout("tcp", w.tcp, 3*time.Second)
